@@ -204,6 +204,26 @@ def run_case(case, rng):
         if ab is not case.FAIL:
             want = all((p == 0) or (s in sp.flag) for s, p in zip(S, bvec))
             case.check(bool(ab) == want, "beliefmdp-is_absorbing-wrong", f"b={b!r}: {ab!r} want {want!r}", **facts)
+    # ---- one preallocated belief buffer, overwritten in place between calls (belief trackers, sweeps over points) ----
+    if len(beliefs) >= 2:
+        buf = np.zeros(len(S))
+        for ai, a in enumerate(A):
+            for b in beliefs[:4]:
+                buf[:] = [b.get(s, 0.0) for s in S]
+                pref = B.predictive_obs(sp, b, a, emitted)
+                pov = case.call("predictive_observation_vec(buffer)", pomdp.predictive_observation_vec, buf, ai, facts=facts)
+                if pov is not case.FAIL:
+                    case.check(all(_close(pov[OL.index(o)], pref[o]) for o in emitted),
+                               "predictive_observation_vec-stale-after-in-place-belief-update", lambda: f"b={b!r} a={a!r}", **facts)
+                for o in emitted:
+                    post, po = B.posterior(sp, b, a, o)
+                    ev = case.call("state_estimator_vec(buffer)", pomdp.state_estimator_vec, buf, ai, OL.index(o), facts=facts)
+                    case.count("buffer_updates_checked")
+                    if ev is not case.FAIL:
+                        want = np.array([post.get(s, 0.0) for s in S])
+                        case.check(np.allclose(ev, want, rtol=1e-12, atol=1e-12),
+                                   "state_estimator_vec-stale-after-in-place-belief-update",
+                                   lambda: f"b={b!r} a={a!r} o={o!r}: {np.asarray(ev).tolist()!r} want {want.tolist()!r}", **facts)
     b0 = case.call("BeliefMDP.initial_state_dist", lambda: list(bm.initial_state_dist().items()))
     if b0 is not case.FAIL:
         want = [sum(p for s2, p in sp.init if s2 == s and p > 0) for s in S]
